@@ -111,8 +111,22 @@ fn num_eq(a: &serde_json::Number, b: &serde_json::Number) -> bool {
     a.as_f64() == b.as_f64()
 }
 
-/// prune(v) ⊑ w ; Err(path, what)
-fn contained(v: &Value, w: &Value, path: &str) -> Result<(), (String, String)> {
+fn collect_defaults(v: &Value, out: &mut Vec<Value>) {
+    match v {
+        Value::Object(o) => {
+            if let Some(d) = o.get("default") {
+                out.push(d.clone());
+            }
+            o.values().for_each(|x| collect_defaults(x, out));
+        }
+        Value::Array(a) => a.iter().for_each(|x| collect_defaults(x, out)),
+        _ => {}
+    }
+}
+
+/// prune(v) ⊑ w ; Err(path, what). `defaults`: the schema defaults of the
+/// document (a member the round trip adds may carry one of them).
+fn contained(v: &Value, w: &Value, path: &str, defaults: &[Value]) -> Result<(), (String, String)> {
     match (v, w) {
         (Value::Object(a), Value::Object(b)) => {
             for (k, x) in a {
@@ -120,18 +134,18 @@ fn contained(v: &Value, w: &Value, path: &str) -> Result<(), (String, String)> {
                     if let Some(y) = b.get(k) {
                         if !droppable(y) && !default_like(y) {
                             // an empty member may come back filled only with defaults
-                            contained(x, y, &format!("{path}/{k}"))?;
+                            contained(x, y, &format!("{path}/{k}"), defaults)?;
                         }
                     }
                     continue;
                 }
                 match b.get(k) {
-                    Some(y) => contained(x, y, &format!("{path}/{k}"))?,
+                    Some(y) => contained(x, y, &format!("{path}/{k}"), defaults)?,
                     None => return Err((format!("{path}/{k}"), "lost-member".into())),
                 }
             }
             for (k, y) in b {
-                if !a.contains_key(k) && !default_like(y) {
+                if !a.contains_key(k) && !default_like(y) && !defaults.contains(y) {
                     return Err((format!("{path}/{k}"), "added-member".into()));
                 }
             }
@@ -141,7 +155,7 @@ fn contained(v: &Value, w: &Value, path: &str) -> Result<(), (String, String)> {
             if a.len() != b.len() {
                 return Err((path.to_string(), "array-length".into()));
             }
-            let pos = a.iter().zip(b).enumerate().try_for_each(|(i, (x, y))| contained(x, y, &format!("{path}/{i}")));
+            let pos = a.iter().zip(b).enumerate().try_for_each(|(i, (x, y))| contained(x, y, &format!("{path}/{i}"), defaults));
             if pos.is_err() && a.iter().all(|x| !x.is_array() && !x.is_object()) {
                 // sets serialise in arbitrary order: compare scalars as multisets
                 let mut sa: Vec<String> = a.iter().map(|x| x.to_string()).collect();
@@ -203,6 +217,8 @@ impl Property for C03 {
         let case = parse_case(case_v)?;
         let doc = history_document(&case);
         let verdicts = classify(&case, &unit.probes, py)?;
+        let mut schema_defaults = vec![];
+        collect_defaults(&doc, &mut schema_defaults);
         let mut judged = 0u64;
         let mut nontrivial = false;
         // second python round: validity of the outputs
@@ -232,7 +248,7 @@ impl Property for C03 {
                     if second != first {
                         j.violations.push(Violation::new("rt-not-idempotent", format!("root {} instance {}: first {} second {}", p.root, p.arg, first, second)));
                     }
-                    if let Err((path, what)) = contained(&p.arg, &first, "") {
+                    if let Err((path, what)) = contained(&p.arg, &first, "", &schema_defaults) {
                         j.violations.push(Violation::new(format!("rt-{what}"), format!("root {} instance {} came back as {} (at {})", p.root, p.arg, first, path)));
                     }
                     outputs.push((i, first));
